@@ -18,6 +18,7 @@ EXPLANATION = (
     "resize - any other arming site (e.g. arm-all at the top of poll) is a violation; (OWNWAKER) waker i is built with id i in "
     "WakerArray::new / WakerVec::new / resize and get(i) returns wakers[i]; (CFG) the bit-tracking implementation (not the "
     "no_std fallback) is the one linked in std; (BITS) bit-table primitives match their transfer tables.")
+EXPLANATION += (' (OWNWAKER) the inline waker stores its child position at full width (usize).')
 ASSUMPTIONS = [
     "std::sync::Mutex / Arc / Waker::from(Arc<impl Wake>) behave per std documentation",
     "stale wake-ups of an earlier holder of a reused group key are exempted by the property itself",
